@@ -277,6 +277,15 @@ def run(code, stack: List[RV], env: Env, fuel: List[int] = None) -> List[RV]:
         if nvt is None:
             nvt = P_map_result_type(args[0], T('pair', kt, vt), stack, env)
         push(RV(('map',) + tuple(out), T('map', kt, nvt)))
+    elif p == 'MAP' and stack and stack[0].ty['prim'] == 'option':
+        (o,) = pop()
+        if o.abs[0] == 'none':
+            push(RV(('none',), T('option', P_map_result_type(args[0], o.ty['args'][0], stack, env))))
+        else:
+            push(RV(o.abs[1], o.ty['args'][0]))
+            stack = run(args[0], stack, env, fuel)
+            (y,) = pop()
+            push(RV(('some', y.abs), T('option', y.ty)))
     elif p == 'MAP':
         (l,) = pop()
         if l.ty['prim'] != 'list':
@@ -436,6 +445,33 @@ def run(code, stack: List[RV], env: Env, fuel: List[int] = None) -> List[RV]:
         if a.ty['prim'] != 'nat':
             raise Unsupported('INT on ' + a.ty['prim'])
         push(RV(('int', a.abs[1]), INT))
+    elif p == 'ISNAT':
+        (a,) = pop()
+        if a.ty['prim'] != 'int':
+            raise Unsupported('ISNAT on ' + a.ty['prim'])
+        if _truth(a.abs[1] >= 0):
+            push(RV(('some', ('nat', a.abs[1])), T('option', NAT)))
+        else:
+            push(RV(('none',), T('option', NAT)))
+    elif p == 'EDIV':
+        a, b = pop(2)
+        ta, tb = a.ty['prim'], b.ty['prim']
+        rt = {('int', 'int'): (INT, NAT), ('int', 'nat'): (INT, NAT), ('nat', 'int'): (INT, NAT), ('nat', 'nat'): (NAT, NAT),
+              ('mutez', 'nat'): (MUTEZ, MUTEZ), ('mutez', 'mutez'): (NAT, MUTEZ)}.get((ta, tb))
+        if rt is None:
+            raise Unsupported(f'EDIV {ta} {tb}')
+        res_t = T('option', T('pair', rt[0], rt[1]))
+        d = b.abs[1]
+        if not isinstance(d, int):
+            raise Unsupported('EDIV by a symbolic divisor (C16)')
+        if d == 0:
+            push(RV(('none',), res_t))
+        else:
+            if d < 0:
+                raise Unsupported('EDIV by a negative constant (C16)')
+            x = a.abs[1]
+            q, r = x // d, x % d          # d > 0: floor division is the Euclidean one
+            push(RV(('some', ('pair', (rt[0]['prim'], q), (rt[1]['prim'], r))), res_t))
     elif p == 'NEG':
         (a,) = pop()
         push(RV(('int', -a.abs[1]), INT))
@@ -460,6 +496,9 @@ def run(code, stack: List[RV], env: Env, fuel: List[int] = None) -> List[RV]:
         push(RV(('bool', {'AND': x and y, 'OR': x or y, 'XOR': x != y}[p]), BOOL))
     elif p == 'LAMBDA':
         push(RV(('lambda', args[2]), T('lambda', args[0], args[1])))
+    elif p == 'LAMBDA_REC':
+        # body :: ty1 : lambda ty1 ty2 : [] => ty2 : []   (the argument on top, the lambda itself below)
+        push(RV(('lambda-rec', args[2]), T('lambda', args[0], args[1])))
     elif p == 'EXEC':
         x, f = pop(2)
         if f.abs[0] == 'lambda-applied':
@@ -468,6 +507,8 @@ def run(code, stack: List[RV], env: Env, fuel: List[int] = None) -> List[RV]:
             a_ty = f.ty.get('_applied_ty')
             arg = RV(('pair', a_abs, x.abs), T('pair', a_ty, x.ty))
             res = run(inner[1], [arg], env, fuel)
+        elif f.abs[0] == 'lambda-rec':
+            res = run(f.abs[1], [x, f], env, fuel)
         else:
             res = run(f.abs[1], [x], env, fuel)
         if len(res) != 1:
